@@ -208,6 +208,11 @@ impl Property for C20 {
             if cfg.frontend == Frontend::AsyncC && r.chance(1, 4) {
                 t.gap1.push(gen_frame(r, cfg.region));
             }
+            if !nb && r.chance(1, 10) {
+                // the application abandons this uplink half-way ("at any point of any history": the session is stored
+                // and restored after such an operation like after any other)
+                t.cancel_at = Some(r.below(12) as u16);
+            }
             let port0 = r.chance(1, 8);
             Op::Send { port: if port0 { 0 } else { r.range(1, 223) as u8 }, len: if port0 { 0 } else if big && r.chance(1, 3) { 255 } else { send_len(r) }, confirmed: r.chance(1, 3), txn: t }
         };
